@@ -355,8 +355,11 @@ class DisciplineAdapter(MDOFunction):
         )
         variable_types = x_vect.dtype.metadata
         if variable_types is not None:
-            # Restore the proper data types as declared in the design space.
+            # Restore the proper data types as declared in the design space,
+            # for the typed variables that are inputs of this function
+            # (the metadata describe the whole design space).
             for name, type_ in variable_types.items():
-                input_data[name] = input_data[name].astype(type_, copy=False)
+                if name in input_data:
+                    input_data[name] = input_data[name].astype(type_, copy=False)
 
         return input_data
